@@ -617,7 +617,10 @@ def slice_len(start, stop, step, n):
     b = clampidx(stop, n)
     span = S.sub(b, a)
     # ceil(span/step) for span>0 else 0
-    ln = S.ite(S.cmp("<=", span, 0), 0, S.floordiv(S.add(span, S.sub(step, 1)), step))
+    if isinstance(unwrap(step), int) and unwrap(step) == 1:
+        ln = S.smax(span, 0)
+    else:
+        ln = S.ite(S.cmp("<=", span, 0), 0, S.floordiv(S.add(span, S.sub(step, 1)), step))
     return ln, a, step
 
 
